@@ -236,11 +236,12 @@ def native_geometry(ck, model=None):
 
     R = R_earth.to(u.km).value
     n = 0
-    for alt, limb in ((33.0, np.radians(7.0)), (525.0, np.radians(20.0)), (400.0, np.radians(3.0))):
+    # the last three settings make the 42-degree ceiling, not the limb limit, the active bound on the emergence angle
+    for alt, limb in ((33.0, np.radians(7.0)), (525.0, np.radians(20.0)), (400.0, np.radians(3.0)), (525.0, np.radians(30.0)), (33.0, np.radians(40.0)), (2000.0, np.radians(20.0))):
         cfg = native_config(alt, limb)
         g = RegionGeomToO(cfg)
         t0 = g.too_source.eventtime
-        for N in (1, 2, 7, 49, 98, 103, 107, 196, 197, 1000, 4321):
+        for N in ((1, 2, 7, 49, 98, 103, 107, 196, 197, 1000, 4321) if limb < np.radians(25.0) and alt < 1000 else (997, 4321)):
             n += 1
             out = g(N)
             beta, theta, L, vt = out
@@ -276,7 +277,7 @@ def native_dark(ck, model=None):
 
     n = 0
     designs = [(0.0, np.radians(-12.0), np.radians(90.0)), (np.radians(-6.0), np.radians(-18.0), np.radians(150.0)), (np.radians(10.0), np.radians(-12.0), np.radians(30.0)),
-               (np.radians(20.0), np.radians(0.0), np.radians(120.0))]
+               (np.radians(20.0), np.radians(0.0), np.radians(120.0)), (0.0, np.radians(8.0), np.radians(90.0)), (np.radians(-3.0), np.radians(89.0), np.radians(60.0))]  # the last two: Sun limit above the horizon
     for moon_cut, sun_cut, phase in designs:
         cfg = native_config(moon_cut=moon_cut, sun_cut=sun_cut, phase=phase)
         t = ToOEvent(cfg)
